@@ -73,7 +73,7 @@ def req_lines(kind):
 
 
 EVENTS_QUICK = ['okE/c', 'okH/c', 'okA/c', 'okD/c', 'okU/c', 'okX/c', 'okDef/c', 'okOdd/c', 'okCap2/c', 'okS/c', 'hip', 'failR/c', 'failC/c', 'failP/c', 'failX/c', 'rewrite/c',
-                'rewrite:failX/c', 'rewrite@same/c', 'rewrite@older/c', 'ovrA/c', 'ovrB/c', 'okE/n']
+                'rewrite:failX/c', 'rewrite@same/c', 'rewrite@older/c', 'rewrite+obj/c', 'ovrA/c', 'ovrB/c', 'okE/n']
 EVENTS_L3 = ['okOdd/c', 'okDef/c', 'okCap2/c', 'okU/c', 'failX/c', 'rewrite/c', 'rewrite:failX/c', 'ovrA/c', 'ovrB/c']
 OVR_BASE = F.lines(F.base(1, 1, 1, 4, (3, 2, 1)))
 OVR_DROP = ('Production Flow Rate per Well', 'Injection Temperature')
@@ -122,12 +122,14 @@ def replay_history(arg):
                     # overwrite the file behind the last requested path with other content and ask the same client again
                     # rewrite[:<content>][@same|@older]: the modification time the rewritten file ends up with is an environment answer
                     # (cp -p, rsync -t, archive extraction and os.replace of a file prepared earlier all give a time that is not newer)
+                    reuse_object = kind.startswith('rewrite+obj')       # ... and hand the client the very request object it was given before
                     wanted, _, when = kind.partition(':')[2].partition('@') if ':' in kind else ('',) + kind.partition('@')[1:]
                     content_kind = wanted or ('okH' if last['kind'] != 'okH' else 'okE')
                     if last['path'] is None:
                         n_files['i'] += 1
                         last['path'] = str(sim.write_input(req_lines('okE'), name=f'r{n_files["i"]}.txt'))
-                        clients['c'].get_geophires_result(GeophiresInputParameters(from_file_path=last['path']))
+                        last['params'] = GeophiresInputParameters(from_file_path=last['path'])
+                        clients['c'].get_geophires_result(last['params'])
                     st_before = os.stat(last['path'])
                     with open(last['path'], 'w', encoding='UTF-8') as f:
                         f.write('\n'.join(req_lines(content_kind)) + '\n')
@@ -148,6 +150,9 @@ def replay_history(arg):
                     path = str(sim.write_input(req_lines(kind), name=f'r{n_files["i"]}.txt'))
                 rec['content_kind'] = content_kind
                 params = GeophiresInputParameters(dict(OVR_PARAMS), from_file_path=path) if kind in ('ovrA', 'ovrB') else GeophiresInputParameters(from_file_path=path)
+                if kind.startswith('rewrite') and reuse_object and last.get('params') is not None:
+                    params = last['params']
+                last['params'] = params if (mode == 'c' or kind.startswith('rewrite')) and kind not in ('ovrA', 'ovrB') else last.get('params')
                 if mode == 'c' or kind.startswith('rewrite'):
                     last['path'], last['kind'] = path, content_kind
                 result = clients[mode].get_geophires_result(params)
@@ -327,8 +332,8 @@ def run_thorough(seed, budget=None):
         col.add(base + idx, P4[idx], tagged)
     if col.tasks < col.planned:
         col.capped = True
-    col.rule = ('explicit-state search over request histories, each replayed in one real process: ALL histories of length <= 3 over 29 events (unpruned), '
-                'all of length <= 2 over 39 events (one more request per plant / reservoir / economics family, SUTRA, AGS, S-DAC-GT), then depth 4 with process-state pruning: one representative per distinct process-state digest reached at depth 3, extended by every event. The pruning '
+    col.rule = ('explicit-state search over request histories, each replayed in one real process: ALL histories of length <= 3 over 30 events (unpruned), '
+                'all of length <= 2 over 40 events (one more request per plant / reservoir / economics family, SUTRA, AGS, S-DAC-GT), then depth 4 with process-state pruning: one representative per distinct process-state digest reached at depth 3, extended by every event. The pruning '
                 'assumption (equal digest => equal futures) is checked on every digest collision at depth <= 2 against the executed depth-3 extensions')
     col.assumptions = ['functools memo tables and the pint registry are pure caches and excluded from the state comparison',
                        'depth-4 coverage is complete only under the checked assumption that the process-state vector captures every module-level mutable the pipeline reads']
@@ -344,11 +349,11 @@ def run(tier, seed, budget=None):
     mod = sys.modules[__name__]
     r = e1.run_generic(
         mod, PID, tier, seed, budget,
-        rule=('explicit-state search over request histories, each replayed in one real process: quick = ALL histories of length <= 2 over 22 events '
+        rule=('explicit-state search over request histories, each replayed in one real process: quick = ALL histories of length <= 2 over 23 events '
               '(10 successful GEOPHIRES requests incl. add-ons, district heating, input units, output-unit directives, an all-defaults request, a many-non-defaults '
               'request, a two-segment request capped in its last segment and a closed-loop (SBT) request; HIP-RA-X; 4 failing requests that fail while reading / calculating / printing / through a bare sys.exit(); rewrite-the-file-with-other-content '
-              '(succeeding or aborting; modification time newer, unchanged or older)-and-ask-again; the base-file-plus-override-dictionary request of the client on a base that is rewritten with lines dropped; a non-caching client) plus ALL histories of length 3 over 9 events; thorough = all histories of length <= 3 '
-              'over 29 events + pruned depth 4; starting directory alternates. References: each request alone '
+              '(succeeding or aborting; modification time newer, unchanged or older; a new request object or the one used before)-and-ask-again; the base-file-plus-override-dictionary request of the client on a base that is rewritten with lines dropped; a non-caching client) plus ALL histories of length 3 over 9 events; thorough = all histories of length <= 3 '
+              'over 30 events + pruned depth 4; starting directory alternates. References: each request alone '
               'in pristine interpreters under PYTHONHASHSEED 0/1/12345 and two directories. States = digest of the process-state vector after the history'),
         assumptions=['functools memo tables are pure caches and excluded from the state comparison (reported in evidence)',
                      'result equality is on the complete parsed content of the returned result object (all categories and profile tables; metadata with paths/clock excluded) and on the full report text for HIP-RA-X'],
